@@ -104,6 +104,7 @@ func initProperties() {
 			Decides: "option plumbing into the native FSM (FLAGSYNC: every conv.Option that affects j2t reaches its own flag bit, flags recomputed after every options write), the native status is tested and handled (NATIVERET), and for the portable converter (config P): every JSON-kind case of doRecurse ends in a return (CASEEXIT), the portable code reads the same options the flag table maps (OPTAGREE), no error dropped (DROPERR), thrift type switch exhaustive (KINDEXH).",
 			NotDec:  "everything inside the native FSM (opaque machine code): number/escape handling, resumption after ERR_OOM_*, buffer-capacity independence; value equality of the output.",
 			Uses: uses(
+				use("PARSEWIDTH", "text integers are parsed at the width of their target", nil),
 				use("CTWINLIT", "the Go-built key trie / hash map is probed by the native code with the same constants", nil),
 				use("PARSEBASE", "text integers (map keys, quoted numbers) are decimal", nil),
 				use("GROWCAP", "the output buffer is re-allocated with room for what it holds", nil),
@@ -183,6 +184,7 @@ func initProperties() {
 			Decides: "the by-id slot threshold is compared identically at load, lookup and store (THRESHAGREE), PathNode.marshal covers every thrift type and writes headers before elements (KINDEXH, HDRFIRST), child-slice growth is bounded by the input (ALLOCBOUND), Marshal copies out of the pooled buffer (POOLESCAPE).",
 			NotDec:  "losslessness itself (byte equality of Marshal(Load(x)) with x for every x); that edits through SetField/SetByStr land in the slot a later lookup consults.",
 			Uses: uses(
+				use("PROBEBOUND", "a lookup in the child hash table ends after one round", thriftGeneric),
 				use("PATCHAFTERDEC", "a dropped empty child patches the header with the corrected count", thriftGeneric),
 				use("BUFOWN", "marshal only extends the writer's buffer", thriftGeneric),
 				use("BARESPAN", "an empty container child keeps its own span when the parent is not scanned", thriftGeneric),
@@ -213,6 +215,7 @@ func initProperties() {
 			Decides: "for every function of both protocols, both generic packages and the four converters, in both build configurations: every cursor loop consumes input or leaves (LOOPPROGRESS), no input-derived count sizes an allocation unbounded (ALLOCBOUND), size-guarded functions never get a non-positive size (PANICARG), descriptor lookups on input-derived ids are nil-checked (NILLOOKUP), input-driven recursion carries a depth budget (RECDEPTH), no decoder error is dropped or swallowed (DROPERR, ERRSWALLOW).",
 			NotDec:  "out-of-bounds reads through unsafe in general (only the scalar casts of thrift/generic are tied to the node length, RAWWIDTH; header peeks of iterators and of the protobuf side need value ranges), panics inside sonic or the native blob, wall-clock bounds.",
 			Uses: uses(
+				use("PROBEBOUND", "a lookup in the child hash table ends after one round", nil),
 				use("COUNTSIGN", "a count decoded in place is sign-tested before it scales a cursor advance", nil),
 				use("GROWCAP", "a nearly full buffer is re-allocated with a capacity above its length", nil),
 				use("CURSORBACK", "a reader steps its cursor back only after comparing it with the step", nil),
@@ -265,6 +268,7 @@ func initProperties() {
 			Decides: "unknown field numbers in the message cannot crash reads (NILLOOKUP over proto/generic), kind/wire-type/packedness tables match the protobuf spec (KINDTABLE — they drive every skip), errors propagate (DROPERR, ERRSWALLOW), search loops consume (LOOPPROGRESS), unknown fields are skipped (UNKNOWNSKIP).",
 			NotDec:  "positions/values, packed/unpacked boundaries, empty sub-messages.",
 			Uses: uses(
+				use("NOUNTYPEDSKIP", "a packed list is skipped by its element wire type", nil),
 				use("OPTSFORWARD", "the caller's options reach every part of the result", protoGeneric),
 				use("TWINCMP", "the peeking tag reader rejects what the moving one rejects", inPkgs("proto/binary")),
 				use("PEEKBREAK", "the tag that ends a field's run is peeked at, not consumed", nil),
@@ -346,6 +350,7 @@ func initProperties() {
 			Decides: "the visitor's kind switches accept every kind the spec allows for a JSON number/string/bool and map key (KINDEXH), per-kind writer primitives match the spec (RWPAIR), tags use real wire types and map entries use field numbers 1/2 (TAGTYPE, MAPTAG), parse errors are not blanked (DROPERR), unknown = error iff disallowed (NEGPOLARITY).",
 			NotDec:  "speculative-length shifting at 127/128/16383 (value-level; pairing across sonic callbacks is dynamic), range checks.",
 			Uses: uses(
+				use("PARSEWIDTH", "map keys given as text are parsed at the width of the key kind", inPkgs("conv/j2p")),
 				use("VALUEEND", "every value handler closes the value it handled", nil),
 				use("LENBEFOREEND", "a length is written back before its frame is released", nil),
 				use("PARSEBASE", "map keys given as text are decimal", inPkgs("conv/j2p")),
@@ -381,6 +386,7 @@ func initProperties() {
 			Decides: "inserted tags carry a real wire type and map entries key=1/value=2 (TAGTYPE, MAPTAG), speculative lengths are finished on every path of PathNode.marshal (SPECLENPAIR), name->number translation is nil-checked (NILLOOKUP), insertion/tag errors propagate (DROPERR), the delete locator has a not-found exit (NOTFOUNDEXIT).",
 			NotDec:  "updateByteLen ancestor-length arithmetic.",
 			Uses: uses(
+				use("NOUNTYPEDSKIP", "a packed list is skipped by its element wire type", nil),
 				use("PEEKBREAK", "the not-found position of a map / list lies before the next field's tag", protoGeneric),
 				use("BUFOWN", "marshal only extends the writer's buffer", protoGeneric),
 				use("ONESHOTFLAG", "the packed flag is re-read at every level of the length update", protoGeneric),
@@ -541,6 +547,8 @@ func initProperties() {
 			Decides: "each annotation key maps to the type whose Request/Response calls the getter/setter of its declared source (ANNOTABLE), the first listed source with a value wins (FIRSTWINS), HTTPConv really enables mapping before flags are computed (FLAGSYNC), fallback options reach the right parameters (ARGSWAP), mapping errors are not dropped (DROPERR).",
 			NotDec:  "precedence/fallback decision table, field-cache replay in the native converter.",
 			Uses: uses(
+				use("PARSEWIDTH", "an HTTP value is parsed at the width of its field: out-of-range text is an error", nil),
+				use("ENCODINGTABLE", "each mapping announces the value codec the converters expect", nil),
 				use("SIGNEDBYTE", "the text form of an i8 (header, query, js_conv) is signed", nil),
 				use("ARGAGREE", "every HTTP look-up of a field uses the same key accessor", nil),
 				use("CACHERET", "the body-member cache returns what it stored", nil),
